@@ -376,8 +376,13 @@ def _check_main(ctx, rep: Report):
 
         def stub_with(interp, st, args, kwargs, frame, node):
             from ..common import Outcome
+            # the funnel (with_<attr> / prepare_attr_value / mutate_attr) is summarised: what matters is what reaches it
+            given = [vrepr(a_) for a_ in list(args) + list(kwargs.values()) if not isinstance(a_, tuple) and a_ is not None]
+            st.emit("U", "funnel", "stub", tuple(given), interp.site(frame, node))
             return [Outcome("ok", st, Sym(("with_result",), {FRESH}))]
         cfg.stubs["WithAttrMethod.with_attr"] = stub_with
+        cfg.stubs["mutate_attr"] = stub_with
+        cfg.stubs["prepare_attr_value"] = stub_with
     nkw = 0
     for hid, h in helpers.items():
         kwname = h.params()["varkw"]
@@ -393,7 +398,7 @@ def _check_main(ctx, rep: Report):
                 continue
             consulted = any((k[0] == "truthy" and len(k[1]) == 3 and str(k[1][1]).startswith("kwargs:")) or (kwname, "[]") == tuple(k[1])[:2]
                             or kwname in str(k[1]) for k, v in o.state.decisions if isinstance(k[1], tuple)) \
-                or any(kwname in str(e) for e in o.state.trace if e[0] in ("W", "U"))
+                or any(kwname in str(e) or "kwargs:" in str(e) for e in o.state.trace if e[0] in ("W", "U"))
             if not consulted:
                 blind.append(vrepr(o.value))
         rep.oblige("C17.LIVE", f"{hid}: **{kwname} consulted on every normal path", not blind, str(sorted(set(blind))[:3]))
